@@ -64,6 +64,8 @@ class Unit:
                 out.append(f'{self.name}: decision depends on unknown value {p.tainted[0]}')
             for u in p.unknowns:
                 out.append(f'{self.name}: construct outside the interpreted fragment: {u[0]}')
+        if self.runs.inv and not any(p.outcome == 'return' for p in self.runs.inv):
+            out.append(f'{self.name}: no abstract path of the unit returns (its exits were not explored)')
         return sorted(set(out))
 
     def summary(self):
